@@ -244,7 +244,7 @@ func (L *Layout) ranges(t types.Type, base int64, out *[]CellRange) {
 // zero value term of a cell sort
 func (L *Layout) Zero(sort string) string {
 	switch sort {
-	case "Int", "GInt":
+	case "Int", "GInt", "GOwn":
 		return "0"
 	case "Bool":
 		return "false"
